@@ -40,6 +40,35 @@ fn ss_value(m: &HashMap<i32, ShortestPathInfo<i32>>) -> Value {
     )
 }
 
+/// The paths of every reported node in the order the library returned them (the order is
+/// not contractual; it binds spec/DijkstraRules.tla, which predicts it, to the code).
+fn ss_raw(r: &Result<HashMap<i32, ShortestPathInfo<i32>>, Error>) -> Value {
+    match r {
+        Ok(m) => {
+            let mut keys: Vec<&i32> = m.keys().collect();
+            keys.sort();
+            Value::Array(keys.into_iter().map(|t| json!([t, m[t].paths])).collect())
+        }
+        Err(_) => json!([]),
+    }
+}
+
+/// The traversal lists Dijkstra scans: per position the (1-based position, weight) pairs in stored order.
+#[cfg(graphrs_verif)]
+fn adjacency(g: &G) -> Value {
+    let s = g.verif_snapshot();
+    Value::Array(
+        s.successors_vec
+            .iter()
+            .map(|l| Value::Array(l.iter().map(|(i, w)| json!([i + 1, f_to_w(*w)])).collect()))
+            .collect(),
+    )
+}
+#[cfg(not(graphrs_verif))]
+fn adjacency(_g: &G) -> Value {
+    json!([])
+}
+
 fn ss_ans(r: Result<HashMap<i32, ShortestPathInfo<i32>>, Error>) -> Value {
     match r {
         Ok(m) => json!({"e": "", "v": ss_value(&m)}),
@@ -126,8 +155,16 @@ pub fn suite_paths(g: &G, grid: u8) -> Value {
         for &s in &names {
             let mut calls = vec![];
             let mut call = |t: i32, c2: i64, fo: bool, wp: bool| {
-                let ans = guarded(|| ss_ans(dijkstra::single_source(g, weighted, s, target_o(t), cutoff_f(c2), fo, wp)));
-                calls.push(json!({"target": t, "cutoff": c2, "first_only": fo, "with_paths": wp, "ans": ans}));
+                let mut raw = json!([]);
+                let ans = guarded(|| {
+                    let r = dijkstra::single_source(g, weighted, s, target_o(t), cutoff_f(c2), fo, wp);
+                    if wp && names.len() <= 8 {
+                        raw = ss_raw(&r);
+                    }
+                    ss_ans(r)
+                });
+                calls.push(json!({"target": t, "cutoff": c2, "first_only": fo, "with_paths": wp, "ans": ans, "raw": raw,
+                                  "has_raw": wp && names.len() <= 8}));
             };
             call(0, -1, false, true);
             call(0, -1, true, true);
@@ -166,11 +203,24 @@ pub fn suite_paths(g: &G, grid: u8) -> Value {
         for &t in names.iter().take(if names.len() <= 6 { 6 } else { 2 }) {
             variants.push((t, -1, false, true));
         }
+        // above the parallel threshold: every target, distances only (early exit in every worker)
+        if names.len() > 20 {
+            for &t in names.iter() {
+                variants.push((t, -1, false, false));
+            }
+        }
         if grid >= 1 {
             variants.push((0, 2, false, true));
             variants.push((0, 3, true, false));
         }
+        // above the parallel threshold the same calls are also made inside a pool of two threads, where
+        // each worker handles many sources in a row (the global pool gives each worker one or two)
+        let pool2 = if names.len() > 20 { rayon::ThreadPoolBuilder::new().num_threads(2).build().ok() } else { None };
         for (t, c2, fo, wp) in variants {
+            if let Some(pool) = &pool2 {
+                let a = pool.install(|| guarded(|| ap_ans(dijkstra::all_pairs(g, weighted, target_o(t), cutoff_f(c2), fo, wp))));
+                ap.push(json!({"weighted": weighted, "target": t, "cutoff": c2, "first_only": fo, "with_paths": wp, "ans": a, "pool": 2}));
+            }
             let a = guarded(|| ap_ans(dijkstra::all_pairs(g, weighted, target_o(t), cutoff_f(c2), fo, wp)));
             ap.push(json!({"weighted": weighted, "target": t, "cutoff": c2, "first_only": fo, "with_paths": wp, "ans": a}));
             let a = guarded(|| ap_ans(dijkstra::multi_source(g, weighted, names.clone(), target_o(t), cutoff_f(c2), fo, wp)));
@@ -199,19 +249,28 @@ pub fn suite_paths(g: &G, grid: u8) -> Value {
             }
         }
     }
-    json!({"ss": ss, "ap": ap, "ms": ms, "inv": inv})
+    json!({"ss": ss, "ap": ap, "ms": ms, "inv": inv, "adj": adjacency(g)})
 }
 
 /// suite "centrality": C05, C06.
 pub fn suite_centrality(g: &G) -> Value {
     let mut bc = vec![];
     let mut cc = vec![];
+    // above the parallel threshold also inside a pool of two threads (each worker then handles
+    // many sources in a row, which is what reused per-worker state needs to show)
+    let pool2 = if g.number_of_nodes() > 20 { rayon::ThreadPoolBuilder::new().num_threads(2).build().ok() } else { None };
     for weighted in modes(g) {
         for flag in [false, true] {
             let a = guarded(|| f64_map_ans(betweenness::betweenness_centrality(g, weighted, flag)));
             bc.push(json!({"weighted": weighted, "normalized": flag, "ans": a}));
             let a = guarded(|| f64_map_ans(closeness::closeness_centrality(g, weighted, flag)));
             cc.push(json!({"weighted": weighted, "wf": flag, "ans": a}));
+            if let Some(pool) = &pool2 {
+                let a = pool.install(|| guarded(|| f64_map_ans(betweenness::betweenness_centrality(g, weighted, flag))));
+                bc.push(json!({"weighted": weighted, "normalized": flag, "ans": a, "pool": 2}));
+                let a = pool.install(|| guarded(|| f64_map_ans(closeness::closeness_centrality(g, weighted, flag))));
+                cc.push(json!({"weighted": weighted, "wf": flag, "ans": a, "pool": 2}));
+            }
         }
     }
     json!({"bc": bc, "cc": cc})
